@@ -226,6 +226,9 @@ def monitor(ctx):
                                                 variables=['x'], **kw), formulas + ['2*x+2', 'x+3', '3*x+5']),
                 ('Numerical', NumericalGrader(answers=('2', {'expect': '3', 'grade_decimal': 0.25}), **kw), ['2', '3', '2.0000001', '1+1', 'x', '', '1/0', 'pi']),
                 ('Matrix', MatrixGrader(answers=({'expect': '[1,2]', 'grade_decimal': rng.choice([1, 0.5, 0])},), entry_partial_credit=rng.choice([0.5, 'proportional']), variables=['x'], **kw), mats),
+                ('MatrixFlat0', MatrixGrader(answers='[1,2]', entry_partial_credit=0, **kw), mats + ['[1,3]', '[0,2]']),
+                ('MatrixFlat1', MatrixGrader(answers=({'expect': '[1,2]', 'grade_decimal': rng.choice([1, 0.5])},), entry_partial_credit=1, **kw), mats + ['[1,3]', '[0,2]']),
+                ('MatrixMsgOnly', MatrixGrader(answers='[[1,2],[3,4]]', entry_partial_msg='some entries are wrong', **kw), mats + ['[[1,2],[3,5]]', '[[0,2],[3,4]]']),
                 ('MatrixPlain', MatrixGrader(answers='[[1,2],[3,4]]', **kw), mats),
                 ('SingleListFormula', SingleListGrader(answers=['x', '2*x', '3'], subgrader=FormulaGrader(variables=['x']), **kw), ['x,2*x,3', '3,x,2*x', 'x,x', 'x,,3', '', 'x,2*x,3,4,5,6,7', 'x;2']),
                 ('Interval', IntervalGrader(answers='[1,2)', **kw), ['[1,2)', '(1,2)', '[1,2]', '[1,3)', '1,2', '[1,2', '[a,b)', '', '[1,2,3)']),
